@@ -16,7 +16,8 @@ CHECKS = {
     "C01": (MC, SOLVE_T + "; oracle = independent relation predicates on every delivered vector",
             "every problem of the universe U (single constraints in every sharing layout, constraint pairs, toy shipped models, "
             "adversarial structures) is run under every configuration, enumerating and optimising, and every vector handed to the "
-            "caller is checked against domains, offsets and all posted relations",
+            "caller is checked against domains, offsets and all posted relations; the multiprocessing solver over the real sub-problems of "
+            "Problem.split(k, idx) (every idx, permuted layouts) under the controlled scheduler",
             BASE_TRUST, "3 C01, 2.5, 2.8", "SolveMC"),
     "C02": (MC, SOLVE_T + "; oracle = brute-force solution multiset; all posting permutations",
             "find_all of every problem of U (constructor and add_variable(s) spellings) under every configuration and posting order is "
@@ -57,10 +58,12 @@ CHECKS = {
             BASE_TRUST, "3 C10, 2.4", "EngineMC"),
     "C11": (MC, "stateless deviation-bounded exploration of all merges of the real workers' message streams against the real parent (SchedMC: fake Process/Queue)",
             "every interleaving of the workers' real message streams (plus spurious timeouts / late termination observations up to a "
-            "deviation bound, both pickling extremes of the statistics array) is replayed against the real MultiprocessingSolver",
+            "deviation bound, both pickling extremes of the statistics array) is replayed against the real MultiprocessingSolver; "
+            "conformance: a slice of the cases also runs with real processes, the real per-worker streams must equal the model's and the "
+            "real arrival order replayed through the scheduler must reproduce the real result and statistics",
             BASE_TRUST + "; workers are deterministic and share nothing but the queue (checked), per-producer FIFO", "3 C11, 2.6", "SchedMC"),
     "C12": (MC, "exhaustive enumeration of Problem.split over domains x k x layouts; partition laws + find_all of every part",
-            "all [a,b] x k x variable position / sharing layouts up to the bound; deep comparison of original and parts; the "
+            "all [a,b] x k x variable position / sharing layouts (incl. layouts where variable i does not use shared domain i) up to the bound; deep comparison of original and parts; the "
             "disjoint union of the parts' solutions equals the original solution set", BASE_TRUST, "3 C12", "SplitMC"),
     "C14": (MC, PROP_T + "; oracle = exact bounds hull, second call, one-round interval reference for affine_eq",
             "for the 17 documented bound-consistent propagators every enumerated call must return exactly the hull and be idempotent; "
@@ -97,11 +100,13 @@ CHECKS["C16"] = (MC, "PropMC + SolveMC under bounds monitors: IndexError in inte
                  BASE_TRUST, "3 C16", "PropMC+SolveMC")
 CHECKS["C19"] = (EXP, "exhaustive enumeration of a finite capacity grid (stack heights x depths x heuristics x modes, sizes around 8/16-bit limits) in sub-processes",
                  "each grid point runs interpreted, compiled and compiled with bounds checking; accepted outcomes are a deliberate error "
-                 "or exactly the reference result with no out-of-range access; crash, hang, wrong result, IndexError are violations",
+                 "or exactly the reference result with no out-of-range access; crash, hang, wrong result, IndexError are violations; sizes: "
+                 "propagators, variables, slots and parameters (also made of arity-1 / one-parameter propagators), shared domains with explicit decision domains, views",
                  "closed-form solution set of the chain model; sub-process isolation; time budgets per point", "3 C19", "CapacityMC")
 CHECKS["C20"] = (EXP, "exhaustive enumeration of a finite grid of shipped models x instances x symmetry breaking x configurations x processes; definition-level validators",
                  "every solution of every case is validated against the problem definition, counts and optima against literature / brute "
-                 "force, configurations against each other, satisfiability with vs without symmetry breaking", 
+                 "force, configurations against each other, satisfiability with vs without symmetry breaking; known optimal Golomb rulers must be "
+                 "accepted, bounded Golomb enumerations (BC, the shipped custom algorithm) must match brute force", 
                  "validators of mc/shipworker.py (written from CSPLib problem statements); literature counts", "3 C20", "ShippedMC")
 
 NOT_YET = {}
